@@ -36,3 +36,10 @@ Print Assumptions C03_type_parser_terminates.
 Theorem C03_type_parser_fuel_bound : forall f ts, (length ts <= f)%nat -> PT (S f) ts <> Fuel.
 Proof. exact PT_total. Qed.
 Print Assumptions C03_type_parser_fuel_bound.
+
+(* with its error recovery (Parse/TypeRecover.v) the model of ParseType is a total function on lexer output: every token list ending with
+   <eof> gets a tree and an error list -- the recursion, both loops and the skip loops of handleParseTypeError all end *)
+From Verif Require Import Parse.TypeRecover Parse.TypeRecoverProofs.
+Theorem C03_type_parser_with_recovery_is_total : forall ts, last_eof ts -> exists t errs, parse_typeR ts = Some (t, errs).
+Proof. exact parse_typeR_total. Qed.
+Print Assumptions C03_type_parser_with_recovery_is_total.
